@@ -102,6 +102,81 @@ CHECKS = {
         "level_note": "The concurrent conditions are necessary conditions of linearizability (no false alarm possible), sufficient for the max-register; real-thread histories are not replayable exactly (the replay command re-runs the workload 200 times).",
         "assumptions": ["stamps come from one global SeqCst counter taken immediately before the call and after the reply"],
     },
+
+    "C02": {
+        "cmd": "c02", "flavours": ["checked", "release"], "level": "exploration", "engine_name": "vh-seq", "design_ref": "DESIGN.md §4 C02",
+        "budget": {"quick": 20, "thorough": 300},
+        "technique": "runtime monitoring: model-side replay of the reported solution + accessor consistency predicate over real solver runs (sequential, cut off at a poll, parallel under random/PCT schedules, free-running threads)",
+        "rule": "random instances/configurations as C01; four kinds of runs: sequential uninterrupted, sequential cut off at a random poll, parallel under the controlled scheduler (random / PCT schedules, 1..3 workers, optionally cut off), parallel free-running / delay-injected with 2..8 threads. Predicate after maximize(): value present iff solution present; Completion.best_value == best_value() == best_lower_bound(); the solution replays on the model (one decision per variable, each in the domain of its variable in the state reached, skipped variables only where irrelevant) to exactly the value; after an uninterrupted run best_upper_bound() == value. Non-trivial = run in which compilations saw the incumbent improve >= 2 times, at least once right after a relaxed compilation (the best exact path of a relaxed diagram became the incumbent); distinct by (instance, configuration, schedule signature).",
+        "level_text": "Exploration: 10^5 runs per quick run across the four execution modes, each verdict independent of the optimum (pure replay), so it also covers interrupted runs.",
+        "level_note": "Trusted: replay functions of the families. Parallel part needs the hooks.",
+        "assumptions": COMMON_ASSUMPTIONS,
+    },
+    "C03": {
+        "cmd": "c03", "flavours": ["checked"], "level": "exploration", "engine_name": "vh-sched", "design_ref": "DESIGN.md §4 C03",
+        "budget": {"quick": 30, "thorough": 600},
+        "addons": ["tsan_par", "miri_par"],
+        "technique": "runtime monitoring under a controlled scheduler: the real ParallelSolver is driven through replayable schedules of its critical sections (bounded-deviation DFS, PCT, random) and judged by the exhaustive optimum; plus delay-injected free-running stress; TSan and Miri on the same workload (thorough)",
+        "rule": "tiny instances whose sequential B&B explores 3..40 sub-problems (families T/K/P, all diagram types, cache on/off, both fringes, widths 1..2, 1..4 workers). Per (instance, configuration): stateless DFS over all schedules deviating at most 1 (quick) / 2 (thorough) times from a default policy (sticky or rotating), capped at 60/400 schedules, + 6/20 random + 3/10 PCT schedules; yield points = every acquisition of the critical mutex, condvar wait/notify, cutoff polls (per layer) and optionally cache reads/writes. A quarter of the shards run free threads (2..16) with injected delays on small instances. Verdict: is_exact and value == exhaustive optimum, no panic. Non-trivial = schedule in which >= 2 different workers processed >= 1 node each; distinct by (instance, configuration, hash of the (worker, site) grant sequence).",
+        "level_text": "Exploration of interleavings of the real threads: thousands of distinct schedules per run, exhaustive within the deviation bound on each tiny instance, each replayable from its grant list.",
+        "level_note": "Interleavings inside one compilation are at layer granularity (cutoff poll, cache operations); finer interleavings of DashMap operations only through stress/TSan/Miri. Needs the hooks (feature xgillard_ddo_verif).",
+        "assumptions": COMMON_ASSUMPTIONS + ["between two scheduling decisions exactly one worker makes progress; woken waiters only re-acquire the mutex and return Starvation before their next yield"],
+    },
+    "C04": {
+        "cmd": "c04", "flavours": ["checked"], "level": "exploration", "engine_name": "vh-sched", "design_ref": "DESIGN.md §4 C04",
+        "budget": {"quick": 30, "thorough": 600},
+        "addons": ["tsan_par"],
+        "technique": "runtime monitoring under a controlled scheduler: exact deadlock state (quiescent, nobody enabled, somebody parked), worker-crash event, livelock witness on the fringe; /proc quiescence watchdog for free-running threads",
+        "rule": "schedule exploration as C03 x thread-count pairs (construction n0 in 1..4, with_nb_threads(n1) in 1..4 incl. n1 > n0 and n1 < n0; up to 16 free-running) x cutoff firing at a random poll index of the reference run (half of the cases). Violation: scheduler deadlock state, a worker exits by panic, the non-termination witness (a sub-problem re-enqueued itself 200 times), or (consequence of a premature completion) an uninterrupted run returning a non-optimal value; free-running: every task asleep and no CPU tick for 3 s before maximize() returned. A step budget exhausted without witness is inconclusive. Non-trivial = schedule in which a worker parked, or a worker with id >= n0 obtained a node, or the cutoff fired after >= 2 workers processed nodes; distinct by (instance, configuration, grant sequence).",
+        "level_text": "Exploration: 'every explored schedule ends with all workers exited and maximize() returning'; deadlock is decided exactly by the scheduler state machine, not by a clock.",
+        "level_note": "Liveness is restated as reachability of the deadlock state / livelock witness within the explored schedules. A deadlock forces the shard process to exit (threads cannot be unwound); the dispatcher resumes the shard after the failing case.",
+        "assumptions": COMMON_ASSUMPTIONS + ["parking_lot condvars have no spurious wake-ups"],
+    },
+    "C05": {
+        "cmd": "c05", "flavours": ["checked", "release"], "level": "fault_enumeration", "engine_name": "vh-sched", "design_ref": "DESIGN.md §4 C05",
+        "budget": {"quick": 30, "thorough": 600},
+        "technique": "fault enumeration at run time: a counting Cutoff fires at every poll index of the uninterrupted run (x schedules for the parallel solver); reported bounds compared with the exhaustive optimum, solution replayed",
+        "rule": "sequential (half of the shards): for every random instance/configuration one reference run counts the cutoff polls K, then every k in 1..K+1 is run (exhaustive over crash points). Parallel: tiny instances, 1..3 workers, the cutoff index k steps through 1..K+2 (every k in the thorough tier, ~12 evenly spaced in the quick tier) x {bounded-deviation DFS (6/25 schedules), 3/8 random, 1 PCT}. Predicate: best_lower_bound <= optimum <= best_upper_bound (infeasible: lb == MIN), reported solution feasible with value == lb, is_exact only if value == optimum. Non-trivial = cut-off run whose reported bounds differ from the final answer (the cutoff fired while work was open); distinct by (instance, configuration, k, schedule signature).",
+        "level_text": "Fault enumeration: every crash point (poll index) of every sampled run is injected; for the parallel solver crash points are crossed with explored schedules.",
+        "level_note": "Crash points are the polls of the Cutoff (once per layer of every compilation): the only places where the library observes the cutoff.",
+        "assumptions": COMMON_ASSUMPTIONS,
+    },
+    "C09": {
+        "cmd": "c09", "flavours": ["checked", "release"], "level": "exploration", "engine_name": "vh-sched", "design_ref": "DESIGN.md §4 C09",
+        "budget": {"quick": 25, "thorough": 480},
+        "technique": "runtime monitoring: differential runs SimpleCache vs EmptyCache judged by the exhaustive optimum; MonCache exercise counters; parallel part under the controlled scheduler with cache reads/writes as yield points",
+        "rule": "re-convergent instances (family T with 2..3 base states and no bonus, knapsack with few distinct weights, sparse set-packing; depth-free and depth-embedded states) x all diagram types x widths x both fringes x three state rankings x rub/dominance variants; each configuration is run with SimpleCache and with EmptyCache: sequential (half of the shards), parallel under random/PCT schedules with cache operations as yield points, parallel delay-injected. Verdict: the caching run is exact with value == optimum and a replayable solution (a common-mode error of both runs is not this property's). Non-trivial = pair in which the cache avoided work (a must_explore refusal, or threshold hits and fewer expansions than the uncached run); distinct by (instance, configuration, schedule signature). Exercise counters: threshold reads/hits, thresholds stored explored/unexplored, layer clears, expansions with/without cache.",
+        "level_text": "Exploration with measured exercise of the cache (hits, refusals, avoided expansions are counted, a pair without any is not counted as non-trivial).",
+        "level_note": "Trusted: oracle optimum. Needs the hooks for the scheduled part.",
+        "assumptions": COMMON_ASSUMPTIONS,
+    },
+    "C14": {
+        "cmd": "c14", "flavours": ["checked", "release"], "level": "exploration", "engine_name": "vh-seq", "design_ref": "DESIGN.md §4 C14",
+        "budget": {"quick": 20, "thorough": 300},
+        "technique": "runtime monitoring: warm-started real solver runs with oracle witness solutions (every feasible solution of tiny instances is enumerated), judged by the optimum and by replay; direct API check of the set_primal replacement rule",
+        "rule": "for every random instance all feasible solutions are enumerated (<= 4000); primal values {optimum, largest feasible value below it, two random feasible values} with a witness solution each are given to set_primal before maximize(); sequential (3/4 of the shards) and parallel under random/PCT schedules (1..3 workers) x all configurations. Verdict: is_exact, value == optimum, returned solution replays to it. set_primal(p1,A); set_primal(p2,B) on both solver types must keep (max, its solution), the first one on ties. Non-trivial = primal below the optimum, or a run that still had to pop a sub-problem; distinct by (instance, configuration incl. the primal).",
+        "level_text": "Exploration: the >/>= boundary of every pruning rule is hit because primal == optimum and primal == next feasible value below are always included.",
+        "level_note": "Trusted: feasible-solution enumeration through the model's own transition functions, oracle optimum.",
+        "assumptions": COMMON_ASSUMPTIONS,
+    },
+    "C15": {
+        "cmd": "c15", "flavours": ["checked", "release"], "level": "exploration", "engine_name": "vh-sched", "design_ref": "DESIGN.md §4 C15",
+        "budget": {"quick": 20, "thorough": 300},
+        "technique": "runtime monitoring: differential runs Pooled vs plain Mdd vs oracle on long-arc models; non-termination witness monitor on the fringe; parallel part under the controlled scheduler and delay injection",
+        "rule": "long-arc models only: depth-free table models with random irrelevance patterns (family T, each base state ignores a random third of the variables) and set-packing with dynamic variable order (family P); widths 1..3 and width heuristics, cache on/off, both fringes; sequential (half of the shards), parallel under random/PCT schedules, parallel delay-injected with 2..8 threads. Verdict: the solver with Pooled terminates (witness: a sub-problem re-enqueueing itself 200 times), is exact, reports the same value as the solver with the plain diagram == oracle optimum, and its (default-completed) solution replays. Non-trivial = pooled run in which is_impacted_by answered false at least once (a node really skipped a layer); distinct by (instance, configuration).",
+        "level_text": "Exploration on the model families that exercise long arcs; termination decided by a witness, never by a clock.",
+        "level_note": "Trusted: oracle, replay with neutral completion.",
+        "assumptions": COMMON_ASSUMPTIONS,
+    },
+    "C19": {
+        "cmd": "c19", "flavours": ["checked", "release"], "level": "fault_enumeration", "engine_name": "vh-seq", "design_ref": "DESIGN.md §4 C19",
+        "budget": {"quick": 20, "thorough": 300},
+        "technique": "fault enumeration at run time: the sequential solver is cut off at every poll index k = 1..K+1; consecutive results compared pairwise, exhaustive optimum at the end",
+        "rule": "for every random instance/configuration (all diagram types, cache on/off, both fringes, three rankings, rub/dominance variants) the uninterrupted run gives K polls; runs cut at k = 1..K+1 (deterministic: run k is a prefix of run k+1) must satisfy lb(k+1) >= lb(k), ub(k+1) <= ub(k), and the last one (cutoff never fires) is exact with lb == ub == optimum. Non-trivial = instance whose ub sequence takes >= 3 distinct finite values and whose lb sequence takes >= 2; distinct by (instance, configuration).",
+        "level_text": "Fault enumeration, exhaustive over the crash points of each sampled run.",
+        "level_note": "Trusted: oracle optimum; determinism of the sequential solver (Fx hasher, no clock).",
+        "assumptions": COMMON_ASSUMPTIONS,
+    },
 }
 
 HOOK_COMMITS = ["da0cac8"]
